@@ -654,6 +654,120 @@ def random_case(rng, entry, big=False, malformed=False):
     return case
 
 
+# ----------------------------------------------------------------- function-level stream
+def fn_case(rng):
+    """direct calls of compute_and_add_axis_min_max / axes_from_lists (branches the writers do not reach:
+    missing masks on coordinates, 2-D coordinates, all-missing, absent property, roi lists, short lists)"""
+    if rng.random() < 0.6:
+        n = rng.choice([0, 1, 2, 4, 7])
+        names = ["y", "x"][: rng.choice([1, 2])]
+        props = []
+        for nm in names + ["other"]:
+            if rng.random() < 0.12:
+                continue
+            dt = rng.choice(["float64", "float32", "int64", "uint8", "bool"])
+            trail = rng.choice([[], [], [], [2]])
+            w = int(np.prod(trail, dtype=np.int64))
+            miss = rng.choice([None, None, "some", "all"])
+            props.append({"name": nm, "kind": "fixed", "dtype": dt, "trail": trail, "values": coord_vals(rng, dt, n * w),
+                          "missing": None if miss is None else [True if miss == "all" else rng.random() < 0.5 for _ in range(n)]})
+        md = {"directed": True, "nprops": [], "eprops": [], "axes": [gen_axis(rng, nm) for nm in names] if rng.random() < 0.9 else None}
+        return {"entry": "minmax", "graph": {"ids": list(range(n)), "edges": [], "nprops": props, "eprops": []}, "md": md}
+    names = ["z", "y", "x"][: rng.choice([0, 1, 2, 3])]
+    ls = gen_lists(rng, names, malformed=rng.random() < 0.4)
+    n = len(names)
+    roi = None
+    if rng.random() < 0.5:
+        k = n + rng.choice([0, 0, 0, -1, 1])
+        lo = [rng.choice(COORDS) for _ in range(max(k, 0))]
+        roi = [lo, [v + rng.choice([0.0, 1.0, 2.5, -1.0]) for v in lo]]
+    if rng.random() < 0.1:
+        ls["names"] = None
+    return {"entry": "axes_from_lists", "graph": {"ids": [], "edges": [], "nprops": [], "eprops": []}, "lists": ls, "roi": roi}
+
+
+def run_fn(case):
+    import warnings
+
+    from geff_spec.utils import axes_from_lists, compute_and_add_axis_min_max
+
+    warnings.simplefilter("ignore")
+    obs = {}
+    try:
+        if case["entry"] == "minmax":
+            g = case["graph"]
+            props = {p["name"]: np_prop(p, len(g["ids"])) for p in g["nprops"]}
+            obs["model_props"] = (props_json(props), None)
+            out = compute_and_add_axis_min_max(build_md(case["md"]), props)
+            obs["axes"] = None if out.axes is None else [a.model_dump(mode="json") for a in out.axes]
+        else:
+            obs["model_props"] = (None, None)
+            roi = case.get("roi")
+            kw = list_kwargs(case["lists"])
+            out = axes_from_lists(kw.pop("axis_names", None), roi_min=None if roi is None else roi[0],
+                                  roi_max=None if roi is None else roi[1], **kw)
+            obs["axes"] = [a.model_dump(mode="json") for a in out]
+    except Exception as ex:  # noqa: BLE001
+        obs["exc"] = type(ex).__name__
+        obs["mro"] = [c.__name__ for c in type(ex).__mro__]
+        obs["msg"] = str(ex)[:200]
+    return obs
+
+
+def fn_request(case, obs, version):
+    fr = collect_fracs(case, obs)
+    for side in case.get("roi") or ():
+        fr += [Fraction(x) for x in side]
+    d = scale_of(fr)
+    if case["entry"] == "minmax":
+        return {"op": "minmax", "md": md_json(case["md"], d, version), "nprops": scaled_props(obs["model_props"][0], d)}, d
+    roi = case.get("roi")
+    return {"op": "axes_from_lists", "lists": lists_json(case["lists"]),
+            "roi_min": None if roi is None else [sint(x, d) for x in roi[0]],
+            "roi_max": None if roi is None else [sint(x, d) for x in roi[1]]}, d
+
+
+def judge_fn(ck, case, obs, mo, d):
+    ok = "axes" in obs
+    ck.case(case, f"{case['entry']}:" + ("ok" if ok else obs.get("exc", "?")), True)
+    if case["entry"] == "axes_from_lists" and not lists_well_formed_fn(case):
+        if ok or "ValueError" not in obs["mro"]:
+            ck.fail("C10:axis-list-length-unchecked", f"axes_from_lists with an axis_* list of the wrong length: "
+                    f"{'accepted' if ok else obs['exc']} (documented: ValueError)", case, "ok" if ok else obs["exc"], "ValueError")
+    if case["entry"] == "minmax" and ok and obs["axes"] is not None:
+        # S-oracle: min/max over the non-missing coordinates, exact
+        g = case["graph"]
+        for a in obs["axes"]:
+            p = next(q for q in g["nprops"] if q["name"] == a["name"])
+            arr = np_prop(p, len(g["ids"]))
+            keep = np.ones(len(g["ids"]), bool) if arr["missing"] is None else ~arr["missing"]
+            vals = [Fraction(x) for x in arr["values"][keep].ravel().tolist()]
+            if len(g["ids"]) and (Fraction(a["min"]) != min(vals) or Fraction(a["max"]) != max(vals)):
+                ck.fail("C10:axis-range", f"compute_and_add_axis_min_max: axis {a['name']} got {a['min']}..{a['max']}", case,
+                        [a["min"], a["max"]], [float(min(vals)), float(max(vals))])
+    if mo is None:
+        return
+    if ok != ("ok" in mo):
+        ck.corr_broken("C10:fn-outcome:" + case["entry"], case, obs.get("exc", "ok"), mo)
+        return
+    if not ok:
+        if mo["err"] != obs["exc"] and mo["err"] not in obs["mro"]:
+            ck.corr_broken("C10:fn-exception:" + case["entry"], case, obs["exc"], mo["err"])
+        return
+    got = None if obs["axes"] is None else [axis_json(a, d) for a in obs["axes"]]
+    want = mo["ok"]["axes"] if case["entry"] == "minmax" else mo["ok"]
+    if got != want:
+        ck.corr_broken("C10:fn-result:" + case["entry"], case, got, want)
+
+
+def lists_well_formed_fn(case):
+    ls = case["lists"]
+    if ls.get("names") is None:
+        return True
+    n = len(ls["names"])
+    return all(ls.get(k) is None or len(ls[k]) == n for k in LIST_KEYS)
+
+
 def warm_sg():
     """compile (or load from the witty cache) the six spatial-graph signatures before forking"""
     g = {"ids": [], "edges": [], "nprops": [], "eprops": []}
@@ -728,7 +842,7 @@ def run(ck: common.Check):
                "distinct case JSON")
     version, rdef = geff_version(), rest_default()
     cases = list(corpus())
-    per = 300 if ck.quick else 6000
+    per = 700 if ck.quick else 6000
     for entry in ("write_arrays", "write_dicts", "nx", "rx"):
         for i in range(per):
             cases.append(random_case(ck.rng, entry, big=(i % 15 == 0)))
@@ -749,6 +863,15 @@ def run(ck: common.Check):
         ck.broken.append({"what": "driver Drivers/C10.lean", "detail": drv.broken})
     for i, (c, o) in enumerate(zip(cases, obs)):
         judge(ck, c, o, None if model is None else model[i], scales[i], rdef)
+    # function-level stream
+    fcases = [fn_case(ck.rng) for _ in range(per)]
+    fobs = [run_fn(c) for c in fcases]
+    freq = [fn_request(c, o, version) for c, o in zip(fcases, fobs)]
+    fmodel = drv.ask([r for r, _ in freq])
+    if fmodel is None:
+        ck.broken.append({"what": "driver Drivers/C10.lean (function stream)", "detail": drv.broken})
+    for i, (c, o) in enumerate(zip(fcases, fobs)):
+        judge_fn(ck, c, o, None if fmodel is None else fmodel[i], freq[i][1])
     ck.assumptions += [
         "numpy min/max/boolean indexing, zarr attribute and array storage, pydantic validation/serialisation are "
         "modelled, exercised here, not verified",
